@@ -306,6 +306,10 @@ func genC10(o *out, r *rng, thorough bool) {
 		}
 	}
 	genC10Empties(o, r, n/6)
+	// Circle features among the children, under child-index thresholds (implementation-only oracle)
+	for i := 0; i < n/20+10; i++ {
+		o.op("xcircleindex %d", r.next()%1000000)
+	}
 	// the same collection text under different child-index thresholds
 	for i := 0; i < n/3; i++ {
 		text, fl := genWFColl(r)
@@ -637,6 +641,9 @@ func genC08(o *out, r *rng, thorough bool) {
 					o.op("same %d opred %s %s", g, id, x.id)
 				}
 			}
+		}
+		if i%25 == 7 {
+			o.op("xcircleindex %d", r.next()%1000000)
 		}
 		// require-valid = filter
 		rvid := o.newID("V")
